@@ -16,6 +16,8 @@ META = {
     "note": "Trusted: TLC, Go toolchain/runtime (recover, runtime/metrics allocation counter, RLIMIT_AS), the standard library and x/crypto/ocsp as seed encoders. Inputs outside the modelled mutation classes are only sampled by the byte-level sweep. Allocation bound is deliberately loose (64*len + 64 MiB). A hang is observed through a 5 s watchdog, not proved absent.",
 }
 
+BANNED = set()       # "kind|entry point" pairs the harness stopped feeding after repeated hangs / deaths
+
 NEST_QUICK = '{"10","1000"}'
 NEST_THOROUGH = '{"10","1000","100000"}'
 
@@ -89,7 +91,10 @@ def run_harness(ctx, binary, model, progfile, sweep_count, nshards, tag, mode="s
             args = ["run", model, progfile, out, str(i), str(nshards), mode, only or "-"]
         else:
             args = ["sweep", model, out, str(sweep_count), str(i), str(nshards), mode, only or "-"]
-        p = ctx.run(binary, args, timeout=7200)
+        # the stage has a wall budget inside the harness (it then finishes with what it has); the
+        # outer timeout is only the backstop
+        budget = 900 if ctx.quick else 9000
+        p = ctx.run(binary, args, timeout=budget + 1800, env={"VERIF_C01_BUDGET_S": str(budget)})
         _, st = ctx.harness_output(p)
         return out, st
     for out, st in par(ctx, one, jobs, nshards):
@@ -97,6 +102,8 @@ def run_harness(ctx, binary, model, progfile, sweep_count, nshards, tag, mode="s
         for k, v in st.items():
             if isinstance(v, int):
                 stats[k] += v
+            elif k == "banned":
+                BANNED.update(v)
     if files_only:
         return outs, stats
     recs = []
@@ -307,7 +314,14 @@ def run(ctx):
         nstruct, nsweep, nsum, nrej = nstruct + st["structured"], nsweep + st["sweep"], nsum + st["summaries"], nrej + st["rejected"]
         badrecs += bad
         sample = sample or smp
-    never = [i for i in range(len(progs)) if i not in applied]
+    incomplete = stats["budget_jobs_left"] > 0
+    if incomplete:
+        ctx.note("wall budget of the replay stage exhausted: %d (program, seed) jobs were not run; going on with the "
+                 "candidates gathered so far" % stats["budget_jobs_left"])
+    if stats["calls_not_run"]:
+        ctx.note("%d calls were not made: %s hung / killed the worker %d times and was no longer fed" %
+                 (stats["calls_not_run"], ", ".join(sorted(BANNED)), 3))
+    never = [i for i in range(len(progs)) if i not in applied] if not incomplete else []
     if never:
         classes = sorted(set("%s:%s" % (progs[i]["k"], "+".join(m["n"] for m in progs[i]["p"])) for i in never))
         msg = "%d programs applied to no seed (node classes: %s)" % (len(never), ", ".join(classes[:12]))
@@ -374,7 +388,17 @@ def run(ctx):
     ctx.candidates(binary, [{"sig": b["sig"], "what": b["what"], "case": b["case"]} for b in final],
                    reproduce=lambda path, body: lookup.get(json.dumps(body["sig"], sort_keys=True), False), limit=60)
 
-    if not quick:
+    # calls that were skipped / a stage that was cut short are only acceptable next to a verdict
+    banned_eps = set(b.split("|", 1)[1] for b in BANNED)
+    confirmed = set(b["sig"]["ep"] for b in final if b["_again"])
+    if stats["calls_not_run"] and not banned_eps <= confirmed:
+        ctx.problem("%d calls were skipped after repeated hangs / worker deaths of %s, but that was not reproduced in a fresh "
+                    "process: the run cannot vouch" % (stats["calls_not_run"], ", ".join(sorted(banned_eps - confirmed))))
+    if incomplete and ctx.violations == 0:
+        ctx.problem("the replay stage was cut by its wall budget (%d jobs left) and no violation was found: the run cannot vouch" %
+                    stats["budget_jobs_left"])
+
+    if not quick and not incomplete:
         selftest(ctx, sample, nest)
 
 
